@@ -326,4 +326,8 @@ def run(ctx):
     # (same rule instance as C04/every-tid-listed)
     from rules import c04 as _c04e
     _c04e.rule_every_tid_listed(ctx, R="C05/blamed-thread-listed")
+    # shared infrastructure this property leans on (rules/families.py): each member is the same rule instance as in its home property
+    from rules import families as _fam
+    _fam.thread_list(ctx, "C05")
+    _fam.registers(ctx, "C05")
 
